@@ -1,6 +1,8 @@
 package main
 
 import (
+	"strings"
+	"fmt"
 	"go/ast"
 	"go/types"
 )
@@ -63,5 +65,59 @@ func checkRecoveryGate(p *Prog, r *Result, rule string) {
 	}
 	if n == 0 {
 		r.Undecided(rule, "syntax#recovery counter uses", 0, "no use of the recovery counters found")
+	}
+}
+
+// R11e: an empty command list is an mksh/zsh construct; followStmts is the one place that says so (it reports
+// "must be followed by a statement list" in the other variants). On the pinned tree the parser's functions split
+// cleanly: those that read the lists of a compound command (if, while, for, select, { }, ( )) call followStmts for every
+// list, and those where an empty list is fine everywhere (the file, $( ), <( ), case items) call stmtList. A function
+// that reads one of its lists through followStmts and another directly through stmtList lets the empty list into the
+// variants that do not have it — for that one branch.
+func checkStatementListsAgree(p *Prog, r *Result, rule string) {
+	pkg := p.Pkg("syntax")
+	info := pkg.TypesInfo
+	follow := lookupFunc(pkg, "Parser.followStmts")
+	list := lookupFunc(pkg, "Parser.stmtList")
+	if follow == nil || list == nil {
+		r.Fatalf("anchors Parser.followStmts / Parser.stmtList not found")
+		return
+	}
+	n := 0
+	for _, fd := range p.AllFuncDecls("syntax") {
+		if fd.Body == nil || strings.HasSuffix(p.Position(fd.Pos()), "_test.go") {
+			continue
+		}
+		if fo, _ := info.Defs[fd.Name].(*types.Func); fo == follow {
+			continue
+		}
+		nFollow := 0
+		var direct []*ast.CallExpr
+		ast.Inspect(fd.Body, func(m ast.Node) bool {
+			if c, ok := m.(*ast.CallExpr); ok {
+				if callee := calleeOf(info, c); callee != nil {
+					switch callee.Origin() {
+					case follow:
+						nFollow++
+					case list:
+						direct = append(direct, c)
+					}
+				}
+			}
+			return true
+		})
+		if nFollow == 0 {
+			continue
+		}
+		n++
+		key := funcKey("syntax", fd) + "#every statement list of the construct is read through followStmts"
+		if len(direct) == 0 {
+			r.OK(rule, key, fd.Pos(), fmt.Sprintf("%d lists, all through followStmts", nFollow))
+			continue
+		}
+		r.Bad(rule, key, direct[0].Pos(), fmt.Sprintf("%s reads %d of its statement lists through followStmts, which rejects an empty list outside mksh and zsh, and %d directly through stmtList, which does not: that branch accepts an empty command list in POSIX and Bash too", fd.Name.Name, nFollow, len(direct)))
+	}
+	if n == 0 {
+		r.Bad(rule, "syntax#no function reads its lists through followStmts", follow.Pos(), "the rule no longer sees the construct it is about")
 	}
 }
